@@ -130,7 +130,13 @@ class LPDB:
             return res
 
         try:
-            envs = explore(run, month_classes=month_param, preset=preset)
+            try:
+                envs = explore(run, month_classes=month_param, preset=preset)
+            except Unsupported as e:
+                if "environment bound exceeded" not in str(e):
+                    raise
+                # many independent data-dependent tests (2^k combinations): explored with a larger budget rather than given up
+                envs = explore(run, month_classes=month_param, preset=preset, max_envs=1 << 17)
         except Unsupported as e:
             raise AnalysisError(f"{entry} ({opt_type}) outside the analysed fragment: {e}")
         for mc, dec, res, it in envs:
